@@ -7,6 +7,11 @@
 //! Every entry point is exercised: Relativizer over seven container types, built from BaseIri::new / Iri::to_base /
 //! Iri::as_base / BaseIriRef::to_base_iri, cloned, reused for several IRIs, base(); parents up to 255; the typed and
 //! the &str routes of BaseIri / BaseIriRef / Iri / IriRef resolve and resolve_into for resolving back.
+//! Round 8: a DEEP stream: bases whose path has P-1 .. P+12 inner slashes for a limit P taken at the small values, the
+//! powers of two and the ends of the i8 / u8 ranges (.., 127, 128, 254, 255), in every shape (authority / rooted /
+//! rootless, trailing slash, query and fragment containing slashes, empty and multi-byte segments), against IRIs that
+//! leave the base's path exactly at, one above and one below the highest directory reachable with P steps (and at the
+//! top, at the bottom), asked at the limits P-1, P, P+1, 0, 254, 255: the reference must resolve back or be absent.
 use sophia_iri::{Iri, IriRef, relativize::Relativizer, resolve::{BaseIri, BaseIriRef}};
 use std::borrow::{Borrow, Cow};
 use std::ops::Deref;
@@ -100,6 +105,29 @@ const FIXED: &[(&str, &str)] = &[
     ("http://h/a/b", "http://h/a/b#"),
     ("http://h/a/b#", "http://h/a/b"),
 ];
+
+/// round 8: more hand-written pairs (placed after the directed stream): a base with an authority and an empty path
+/// against IRIs whose authority merely starts with the base's, and the same without authority
+const FIXED2: &[(&str, &str)] = &[
+    ("http://example.org", "http://example.org:8080/x"),
+    ("http://example.org", "http://example.org.uk/a/b"),
+    ("http://example.org", "http://example.orga/b"),
+    ("http://example.org?q", "http://example.org:8080/x?q"),
+    ("http://example.org#f", "http://example.org.uk"),
+    ("http://example.org?q#f", "http://example.org@h/x"),
+    ("s://h", "s://h:80"),
+    ("s://u@h", "s://u@h2/x"),
+    ("http://[::1]", "http://[::1]:80/x"),
+    ("s://", "s://h/x"),
+    ("s://?q", "s://h"),
+    ("x-ample:", "x-ample:a/b"),
+    ("x-ample:", "x-ample:/a/b"),
+    ("x-ample:?q", "x-ample:a"),
+    ("x-ample:#f", "x-ample:a:b"),
+    ("urn:x-local:doc", "urn:x-local:doc2"),
+];
+/// bases a Relativizer may have stood for before it is re-targeted to the base of the case (every shape)
+const PREV_BASES: &[&str] = &["urn:x-local:doc", "http://example.org", "x-ample:a/b/c", "http://h?q#f", "x-ample:", "http://example.org/a/b/c/d/e/f?q#f", "s:/a//b/", "http://\u{e9}/\u{e9}/x#f", "s://h/", "s:?q"];
 
 const SCHEMES: &[&str] = &["http", "s", "x-ample", "urn"];
 const AUTHS: &[&str] = &["a", "a", "h:80", "u@h", "\u{e9}", "\u{65e5}\u{672c}", "", "[::1]", "Example.org", "example.org:80", "h:", "u@H.x:8080", "[::a]", "%41b.c", "a"];
@@ -322,6 +350,58 @@ fn directed_related(b: &Parts, mode: usize) -> Parts {
     p
 }
 
+// ---------- round 8: deep bases around the limit of parent steps ----------
+/// the limits around which the depth of the base is chosen (small values, powers of two +-1, the ends of u8)
+const DEEP_PS: &[usize] = &[0, 1, 2, 3, 5, 8, 16, 64, 127, 128, 254, 255];
+/// number of inner slashes of the base's path (those a reference may climb over) minus the limit
+const DEEP_DELTAS: &[isize] = &[-1, 0, 1, 2, 3, 12];
+/// how many leading segments the IRI shares with the base, relative to `delta` = the smallest number that is within reach
+const DEEP_KEEPS: &[&str] = &["top", "reach-2", "reach-1", "reach", "reach+1", "sibling", "child"];
+const DEEP_TAILS: &[&str] = &["doc", "dir/doc?q#f", "next-segment-exactly", "directory-itself", "next-segment-extended", "directory?query", "directory#fragment"];
+fn n_deep() -> usize { DEEP_PS.len() * DEEP_DELTAS.len() * DEEP_KEEPS.len() }
+/// (base, IRI, limit P, description)
+fn gen_deep(r: &mut Rng, d: usize) -> (Parts, Parts, usize, String) {
+    let (pi, di, ki) = (d / (DEEP_DELTAS.len() * DEEP_KEEPS.len()), (d / DEEP_KEEPS.len()) % DEEP_DELTAS.len(), d % DEEP_KEEPS.len());
+    let p = DEEP_PS[pi];
+    let inner = (p as isize + DEEP_DELTAS[di]).max(0) as usize;
+    let m = inner + 1; // segments (rooted: "/s1/../sm" has m slashes, the first is not inner; rootless: m-1 slashes, all inner)
+    let scheme = r.pick(&["http", "s", "x-ample"]).to_string();
+    let auth = if r.chance(2, 3) { Some(r.pick(&["a", "h:80", "\u{e9}", "", "u@h"]).to_string()) } else { None };
+    let rooted = auth.is_some() || r.chance(1, 2);
+    let odd = r.chance(1, 2); // only one base in two has unusual segments
+    let mut segs: Vec<String> = (0..m).map(|_| {
+        if odd && r.chance(1, 12) { r.pick(&["bc", "\u{e9}", "x:y", "%2e", "..x", "\u{65e5}", "b"]).to_string() }
+        else if odd && r.chance(1, 60) { String::new() }
+        else { r.pick(&["a", "b", "c", "d", "e"]).to_string() }
+    }).collect();
+    if !rooted && segs[0].is_empty() { segs[0] = "a".into(); }
+    if !rooted && segs[0].contains(':') { segs[0] = "a".into(); }
+    if r.chance(1, 4) { *segs.last_mut().unwrap() = String::new(); } // base ending in '/'
+    if m == 1 && segs[0].is_empty() && !rooted { segs[0] = "a".into(); }
+    let query = if r.chance(1, 3) { Some(r.pick(&["q", "q/r/s?t", "a/../b"]).to_string()) } else { None };
+    let frag = if r.chance(1, 4) { Some(r.pick(&["f", "f/g/h"]).to_string()) } else { None };
+    let b = Parts { scheme, auth, rooted, segs, query, frag };
+    // the IRI shares `k` leading segments; it is within reach of P steps iff k >= inner - P
+    let reach = inner.saturating_sub(p) as isize;
+    let k = match ki { 0 => 0, 1 => reach - 2, 2 => reach - 1, 3 => reach, 4 => reach + 1, 5 => m as isize - 1, _ => m as isize }.clamp(0, m as isize) as usize;
+    let mut segs: Vec<String> = b.segs[..k].to_vec();
+    let (mut query, mut frag) = (None, None);
+    let ti = r.below(DEEP_TAILS.len());
+    let next = b.segs.get(k).cloned().unwrap_or_default();
+    match ti {
+        0 => segs.push("zz".into()),
+        1 => { segs.push("zz".into()); segs.push("yy".into()); query = Some("q/r".to_string()); frag = Some("f/g".to_string()); }
+        2 => segs.push(if k < m { next } else { "zz".into() }),
+        3 => segs.push(String::new()),
+        4 => segs.push(format!("{next}x")),
+        5 => { segs.push(String::new()); query = Some("q".to_string()); }
+        _ => { segs.push(String::new()); frag = Some("f".to_string()); }
+    }
+    if !b.rooted && segs[0].is_empty() { segs[0] = "zz".into(); }
+    let i = Parts { scheme: b.scheme.clone(), auth: b.auth.clone(), rooted: b.rooted, segs, query, frag };
+    (b, i, p, format!(" [deep: limit {p} / {inner} inner slashes / shares {k} segments ({}) / tail {}]", DEEP_KEEPS[ki], DEEP_TAILS[ti]))
+}
+
 const REFS: &[&str] = &[
     "", "#f", "?q", "?q#f", "x", "x/y", "./x", "../x", "../../x", "../../../x", "../../../../x", "./", "../", ".", "..", "/x", "/x/../y", "/../x", "/./x", "/", "//h/x", "//h/x/../y", "//h",
     "x:y", "./x:y", "s:x/../y", "http://h/./x", "x/./y", "x/../y", "x/..", "x/.", "x//y", "x/../../y", "..x", ".x/", "x?q/../r", "x#f/../g", "\u{e9}/../\u{e8}", "a/b/c/../../../../d", ".../x", "x/...", "./..", "../.", "./../x", "x/./", "/.", "/..", "?", "#",
@@ -376,7 +456,13 @@ fn resolve_entry_points_agree(b: &str, rf: &str, expected: &Result<String, ()>) 
 
 /// Relativizer over the container type T, built from `base`: base(), relativize every IRI of `iris`, then the same
 /// through a clone in the opposite order (a Relativizer is reused for many IRIs; nothing may depend on the history)
-fn run_rel<T: Deref<Target = str> + Clone>(base: BaseIri<T>, n: u8, iris: &[&str]) -> Result<(String, Vec<Option<String>>), String> {
+///
+/// Round 8: VALUES WITH A HISTORY. A Relativizer built for each base of `prevs` (other shapes: no authority, empty
+/// path, deep path, query, ...; other limits) is re-targeted in place with Clone::clone_from from the fresh one and
+/// must then answer exactly like it; the fresh one's clone is re-targeted to the other base (must answer like a fresh
+/// Relativizer for that base, whose answers are checked against the resolve-back oracle), then back again from a value
+/// that itself has a history, then from itself.
+fn run_rel<'x, T: Deref<Target = str> + Clone>(base: BaseIri<T>, n: u8, iris: &[&str], prevs: &[&'x str], mk: &dyn Fn(&'x str) -> Option<BaseIri<T>>) -> Result<(String, Vec<Option<String>>), String> {
     catch_unwind(AssertUnwindSafe(|| {
         let rel = Relativizer::new(base, n);
         let bt = rel.base().as_str().to_string();
@@ -390,23 +476,66 @@ fn run_rel<T: Deref<Target = str> + Clone>(base: BaseIri<T>, n: u8, iris: &[&str
         if fwd != again { return Err(format!("asking the same Relativizer again gives {again:?} after {fwd:?}")) }
         if cl.base().as_str() != bt { return Err("base() of the clone differs".to_string()) }
         if fwd.iter().any(|x| x.is_err()) { return Err(format!("relativize panicked: {fwd:?}")) }
+        for (k, pb) in prevs.iter().enumerate() {
+            let Some(pbase) = mk(pb) else { continue };
+            let pn = [0u8, 255, n, 3][k % 4];
+            let oracle_base = BaseIri::new(pb.to_string()).map_err(|_| format!("<{pb}> is no base"))?;
+            let prev = Relativizer::new(pbase, pn);
+            let prev_fwd: Vec<Result<Option<String>, ()>> = iris.iter().map(|i| one(&prev, i)).collect();
+            for (i, x) in iris.iter().zip(&prev_fwd) {
+                match x {
+                    Err(_) => return Err(format!("relativize of <{i}> against <{pb}> (parents {pn}) panicked")),
+                    Ok(Some(rf)) => {
+                        let back = oracle_base.resolve(rf.as_str()).map(|y| y.as_str().to_string()).map_err(|_| ());
+                        if back.as_deref() != Ok(*i) || lead_parents(rf) > pn as usize { return Err(format!("base <{pb}> iri <{i}> parents {pn}: relativize returned {rf:?}, which resolves to {back:?}")) }
+                    }
+                    Ok(None) => {}
+                }
+            }
+            // a value that stood for another base, re-targeted in place
+            let mut h = prev.clone();
+            h.clone_from(&rel);
+            let a: Vec<Result<Option<String>, ()>> = iris.iter().map(|i| one(&h, i)).collect();
+            if a != fwd || h.base().as_str() != bt { return Err(format!("a Relativizer built for <{pb}> (parents {pn}), then re-targeted with clone_from(&fresh), has base <{}> and gives {a:?} where the fresh one gives {fwd:?}", h.base().as_str())) }
+            // there ...
+            let mut h2 = rel.clone();
+            h2.clone_from(&prev);
+            let mid: Vec<Result<Option<String>, ()>> = iris.iter().map(|i| one(&h2, i)).collect();
+            if mid != prev_fwd || h2.base().as_str() != *pb { return Err(format!("a clone of the Relativizer, re-targeted with clone_from to one built for <{pb}> (parents {pn}), has base <{}> and gives {mid:?} where a fresh one for that base gives {prev_fwd:?}", h2.base().as_str())) }
+            // ... and back again, from a value that has a history itself; then from itself
+            h2.clone_from(&h);
+            let back: Vec<Result<Option<String>, ()>> = iris.iter().map(|i| one(&h2, i)).collect();
+            if back != fwd || h2.base().as_str() != bt { return Err(format!("a Relativizer re-targeted to <{pb}> (parents {pn}) and back with clone_from has base <{}> and gives {back:?} where the fresh one gives {fwd:?}", h2.base().as_str())) }
+            let same = h2.clone();
+            h2.clone_from(&same);
+            let back2: Vec<Result<Option<String>, ()>> = iris.iter().map(|i| one(&h2, i)).collect();
+            if back2 != fwd { return Err(format!("clone_from(&own clone) changes the answers: {back2:?} after {fwd:?}")) }
+            // the sources are untouched
+            let src: Vec<Result<Option<String>, ()>> = iris.iter().map(|i| one(&rel, i)).collect();
+            let psrc: Vec<Result<Option<String>, ()>> = iris.iter().map(|i| one(&prev, i)).collect();
+            if src != fwd || psrc != prev_fwd { return Err(format!("being the source of clone_from changed a Relativizer (other base <{pb}>)")) }
+        }
         Ok((bt, fwd.into_iter().map(|x| x.unwrap()).collect()))
     })).unwrap_or_else(|_| Err("Relativizer::new / base() panicked".to_string()))
 }
 /// every construction of a Relativizer must behave like Relativizer<&str> built from BaseIri::as_ref
-fn relativizer_entry_points_agree(b: &str, n: u8, iris: &[&str], expected: &[Option<String>]) -> Option<String> {
+fn relativizer_entry_points_agree<'x>(b: &'x str, n: u8, iris: &[&str], prevs: &[&'x str], expected: &[Option<String>]) -> Option<String> {
     let exp: Result<(String, Vec<Option<String>>), String> = Ok((b.to_string(), expected.to_vec()));
+    // `prevs` = the fixed shapes (rotated by the caller) followed by the IRI of the case: the c-th construction is given
+    // the (3c)-th shape, and every third one the IRI as well
+    let (pool, last) = prevs.split_at(prevs.len().saturating_sub(1));
+    let pv: Vec<Vec<&'x str>> = (0..10).map(|c| { if pool.is_empty() { return vec![] } let mut v = vec![pool[(3 * c) % pool.len()]]; if c % 3 == 0 { v.push(last[0]); } v }).collect();
     let runs: Vec<(&str, Result<(String, Vec<Option<String>>), String>)> = vec![
-        ("Relativizer<String>", run_rel(BaseIri::new(b.to_string()).ok()?, n, iris)),
-        ("Relativizer<Box<str>>", run_rel(BaseIri::new(Box::<str>::from(b)).ok()?, n, iris)),
-        ("Relativizer<Rc<str>>", run_rel(BaseIri::new(std::rc::Rc::<str>::from(b)).ok()?, n, iris)),
-        ("Relativizer<Arc<str>>", run_rel(BaseIri::new(std::sync::Arc::<str>::from(b)).ok()?, n, iris)),
-        ("Relativizer<Cow<str>> (borrowed)", run_rel(BaseIri::new(Cow::Borrowed(b)).ok()?, n, iris)),
-        ("Relativizer<Cow<str>> (owned)", run_rel(BaseIri::new(Cow::<str>::Owned(b.to_string())).ok()?, n, iris)),
-        ("Relativizer<&str> from Iri::as_base", match Iri::new(b) { Ok(w) => run_rel(w.as_base(), n, iris), Err(_) => exp.clone() }),
-        ("Relativizer<String> from Iri::to_base", match Iri::new(b.to_string()) { Ok(w) => run_rel(w.to_base(), n, iris), Err(_) => exp.clone() }),
-        ("Relativizer<String> from BaseIriRef::to_base_iri", run_rel(BaseIriRef::new(b.to_string()).ok()?.to_base_iri(), n, iris)),
-        ("Relativizer<&str> from a cloned BaseIri", run_rel(BaseIri::new(b).ok()?.clone(), n, iris)),
+        ("Relativizer<String>", run_rel(BaseIri::new(b.to_string()).ok()?, n, iris, &pv[0], &|s| BaseIri::new(s.to_string()).ok())),
+        ("Relativizer<Box<str>>", run_rel(BaseIri::new(Box::<str>::from(b)).ok()?, n, iris, &pv[1], &|s| BaseIri::new(Box::<str>::from(s)).ok())),
+        ("Relativizer<Rc<str>>", run_rel(BaseIri::new(std::rc::Rc::<str>::from(b)).ok()?, n, iris, &pv[2], &|s| BaseIri::new(std::rc::Rc::<str>::from(s)).ok())),
+        ("Relativizer<Arc<str>>", run_rel(BaseIri::new(std::sync::Arc::<str>::from(b)).ok()?, n, iris, &pv[3], &|s| BaseIri::new(std::sync::Arc::<str>::from(s)).ok())),
+        ("Relativizer<Cow<str>> (borrowed)", run_rel(BaseIri::new(Cow::Borrowed(b)).ok()?, n, iris, &pv[4], &|s| BaseIri::new(Cow::<str>::Owned(s.to_string())).ok())),
+        ("Relativizer<Cow<str>> (owned)", run_rel(BaseIri::new(Cow::<str>::Owned(b.to_string())).ok()?, n, iris, &pv[5], &|s| BaseIri::new(Cow::Borrowed(s)).ok())),
+        ("Relativizer<&str> from Iri::as_base", match Iri::new(b) { Ok(w) => run_rel(w.as_base(), n, iris, &pv[6], &|s| BaseIri::new(s).ok()), Err(_) => exp.clone() }),
+        ("Relativizer<String> from Iri::to_base", match Iri::new(b.to_string()) { Ok(w) => run_rel(w.to_base(), n, iris, &pv[7], &|s| Iri::new(s.to_string()).ok().map(|x| x.to_base())), Err(_) => exp.clone() }),
+        ("Relativizer<String> from BaseIriRef::to_base_iri", run_rel(BaseIriRef::new(b.to_string()).ok()?.to_base_iri(), n, iris, &pv[8], &|s| BaseIriRef::new(s.to_string()).ok().map(|x| x.to_base_iri()))),
+        ("Relativizer<&str> from a cloned BaseIri", run_rel(BaseIri::new(b).ok()?.clone(), n, iris, &pv[9], &|s| BaseIri::new(s).ok())),
     ];
     for (name, got) in runs { if got != exp { return Some(format!("{name} gives {got:?} where Relativizer<&str> gives {exp:?}")); } }
     None
@@ -415,7 +544,8 @@ fn relativizer_entry_points_agree(b: &str, n: u8, iris: &[&str], expected: &[Opt
 struct Verdict { code: u8, out: String, back_ok: bool, back: String }
 impl Verdict {
     fn desc(&self, n: u8) -> String { format!("n={n}:{}", match self.code { 0 => "None".to_string(), 2 => "PANIC".to_string(), _ => format!("{:?}->{}", self.out, if self.back_ok { self.back.clone() } else { "ERR".into() }) }) }
-    fn coq(&self, b: &str, i: &str, n: u8) -> String { format!("case_ok {b} {i} {n} {} {} {} {}", self.code, coq_bytes(self.out.as_bytes()), coq_bool(self.back_ok), coq_bytes(self.back.as_bytes())) }
+    /// `itext` = the text of the IRI bound to the Coq variable `i`: a resolved text equal to it is printed as the variable
+    fn coq(&self, b: &str, i: &str, itext: &str, n: u8) -> String { let lp = lead_parents(&self.out); format!("case_ok {b} {i} {n} {} {} {} {}", self.code, if lp >= 4 { format!("(ups {lp} {})", coq_bytes(self.out[3 * lp..].as_bytes())) } else { coq_bytes(self.out.as_bytes()) }, coq_bool(self.back_ok), if self.back_ok && self.back == itext { i.to_string() } else { coq_bytes(self.back.as_bytes()) }) }
 }
 /// ---- the property oracle ---- for one (base, IRI, parents) and the observed result of relativize
 fn judge(sum: &mut Summary, key: String, base: &BaseIri<String>, b: &str, i: &str, n: u8, got: &Result<Option<String>, ()>) -> Verdict {
@@ -474,18 +604,26 @@ fn main() {
 the first cases are hand-written witnesses; then a DIRECTED stream: 13 bases x 14 rewritings into an equivalent-but-not-identical text (scheme case, host case, percent-encoding case, encoded/decoded unreserved characters, default port, empty path vs '/', dot segments, trailing slash, Unicode form, empty query/fragment, letter case elsewhere, userinfo / empty authority) x 5 relations (same IRI, sibling, other fragment, other query, parent's sibling), the rewriting applied to the IRI or to the base; the others are generated: \
 base = scheme x optional authority (ASCII, with port/userinfo, multi-byte, empty, IP literal, mixed case, escapes) x rooted/rootless/empty path of 0..5 (one in ten: 6..12) segments from a vocabulary with empty, dot, colon, escaped and multi-byte segments x optional query/fragment containing '/' and '?', one base in four rewritten as above; \
 IRI = 45% derived from the base (same scheme/authority, a prefix of its segments, then other segments; or same path and other query/fragment; sometimes the authority dropped/added/extended), 15% a rewriting of the base, 25% a rewriting of a derived IRI, 15% independent; \
+then a DEEP stream: 12 limits P (0, 1, 2, 3, 5, 8, 16, 64, 127, 128, 254, 255) x bases with P-1, P, P+1, P+2, P+3, P+12 inner slashes (with / without authority, rootless, trailing slash, query / fragment containing slashes, some empty, multi-byte, colon segments) x IRIs sharing 0, reach-2, reach-1, reach, reach+1, all but one, all segments (reach = the fewest shared segments that P steps allow) x 7 tails (document, deeper document with query and fragment, the next segment exactly, the directory itself, the next segment extended, directory + query, directory + fragment), asked at the limits P-1, P, P+1, 0, 254, 255 and one random; \
+every Relativizer of every container type is also asked AFTER A HISTORY: a value built for another base (10 shapes without / with authority, empty / deep path, query, fragment; and the IRI of the case as a base; other limits) re-targeted with Clone::clone_from, a clone re-targeted there and back, from a value with a history, from its own clone -- each must answer like a fresh one (and the fresh one for the other base is checked by resolving back); one such history per case is also evaluated by the model (Deep.v: state of a history); \
 non-trivial = IRI and base share scheme and authority text (so the path/query branches of relativize are exercised); distinct = distinct (base, IRI)".into();
     let base_rng = Rng::new(a.seed);
-    let header = "From Sophia.C17 Require Import Model.\n".to_string();
+    // `ups k t` only abbreviates the observed text "../" x k followed by t in the case files
+    let header = "From Sophia.C17 Require Import Model Deep.\nFixpoint ups (k : nat) (t : list N) : list N := match k with O => t | S k' => 46 :: 46 :: 47 :: ups k' t end.\n".to_string();
     let mut cases = vec![];
     let mut seen = std::collections::HashSet::new();
     let prev_hook = std::panic::take_hook();
     if std::env::var("C17_LOUD").is_err() { std::panic::set_hook(Box::new(|_| {})); }
     let range: Vec<usize> = match a.only { Some(i) => vec![i], None => (0..a.n).collect() };
     let n_directed = D_BASES.len() * KINDS.len() * D_MODES.len();
+    // round 8: FIXED2 and the deep stream stand between the directed and the generated stream
+    let n_deep = FIXED2.len() + n_deep();
+    let deep_from = FIXED.len() + n_directed;
     for idx in range {
-        let mut r = base_rng.fork(idx as u64);
+        // the generated stream keeps the forks it had before the deep stream was inserted in front of it
+        let mut r = base_rng.fork(if idx >= deep_from + n_deep { (idx - n_deep) as u64 } else { idx as u64 });
         let mut origin = String::new();
+        let mut deep_limit: Option<usize> = None;
         let (b, i) = if idx < FIXED.len() { (FIXED[idx].0.to_string(), FIXED[idx].1.to_string()) } else if idx < FIXED.len() + n_directed {
             // ---- directed stream ----
             let d = idx - FIXED.len();
@@ -497,6 +635,15 @@ non-trivial = IRI and base share scheme and authority text (so the path/query br
             sum.bump(&format!("directed:{}", KINDS[kind]));
             origin = format!(" [directed: {} / {}{}]", KINDS[kind], D_MODES[mode], if swap { " / base rewritten" } else { "" });
             if swap { (v.text(), rel.text()) } else { (bp.text(), v.text()) }
+        } else if idx < deep_from + FIXED2.len() {
+            (FIXED2[idx - deep_from].0.to_string(), FIXED2[idx - deep_from].1.to_string())
+        } else if idx < deep_from + n_deep {
+            // ---- deep stream ----
+            let (bp, ip, p, what) = gen_deep(&mut r, idx - deep_from - FIXED2.len());
+            origin = what;
+            deep_limit = Some(p);
+            sum.bump(&format!("deep:limit={p}"));
+            (bp.text(), ip.text())
         } else {
             let mut bp = gen_parts(&mut r);
             if r.chance(1, 4) { let (v, k) = variant_any(&mut r, &bp); bp = v; sum.bump(&format!("base-rewritten:{}", KINDS[k])); }
@@ -540,7 +687,13 @@ non-trivial = IRI and base share scheme and authority text (so the path/query br
         // secondary IRIs asked to the same Relativizer: the base itself, and the base with another fragment
         let b_frag = format!("{}#zz", b.split('#').next().unwrap());
         let extra_n = r.range(5, 254) as u8;
-        for n in [0u8, 1, 2, 3, 4, 255, extra_n] {
+        let mut ns: Vec<u8> = vec![0u8, 1, 2, 3, 4, 255, extra_n];
+        if let Some(p) = deep_limit {
+            // the limits next to the depth of the base, and the ends of the range
+            ns = vec![];
+            for n in [p as isize - 1, p as isize, p as isize + 1, 0, 254, 255, extra_n as isize] { if (0..=255).contains(&n) && !ns.contains(&(n as u8)) { ns.push(n as u8); } }
+        }
+        for n in ns {
             let iris: [&str; 3] = [i.as_str(), b.as_str(), b_frag.as_str()];
             let got: Vec<Result<Option<String>, ()>> = match catch_unwind(AssertUnwindSafe(|| Relativizer::new(base.as_ref(), n))) {
                 Ok(rel) => iris.iter().map(|x| catch_unwind(AssertUnwindSafe(|| rel.relativize(Iri::new_unchecked(*x)).map(|y| y.as_str().to_string()))).map_err(|_| ())).collect(),
@@ -552,24 +705,59 @@ non-trivial = IRI and base share scheme and authority text (so the path/query br
             // every other construction / container type of the Relativizer
             if got.iter().all(|x| x.is_ok()) {
                 let exp: Vec<Option<String>> = got.iter().map(|x| x.clone().unwrap()).collect();
-                if let Some(d) = relativizer_entry_points_agree(&b, n, &iris, &exp) { sum.oracle_failures.push((format!("{idx}/n={n}/entry"), format!("base <{b}> iris {iris:?} parents {n}: {d}"))); }
+                // the bases a value stood for before: fixed shapes, and the IRI of the case itself
+                // (each construction takes one of the fixed shapes, rotating with the case, the limit and the construction)
+                let mut prevs: Vec<&str> = PREV_BASES.to_vec();
+                prevs.rotate_left((idx + n as usize) % PREV_BASES.len());
+                prevs.push(i.as_str());
+                // histories at the ends of the range and at the random limit (deep stream: at the limit the depth was chosen for, and at 255)
+                if !deep_limit.map_or(n == 0 || n == 255 || n == extra_n, |p| n as usize == p || n == 255) { prevs.clear(); }
+                if let Some(d) = relativizer_entry_points_agree(&b, n, &iris, &prevs, &exp) { sum.oracle_failures.push((format!("{idx}/n={n}/entry"), format!("base <{b}> iris {iris:?} parents {n}: {d}"))); }
             }
             // equivalent but not identical scheme/authority: any reference would resolve to another text
             if equivalent_root && code == 1 { sum.bump("equivalent-root:some(!)"); } else if equivalent_root { sum.bump("equivalent-root:none"); }
-            sum.bump(&format!("n={}:{}", if n == extra_n && n > 4 && n != 255 { "5..254".to_string() } else { n.to_string() }, ["none", "some", "panic"][code as usize]));
+            if let Some(p) = deep_limit {
+                let lp = lead_parents(&out);
+                sum.bump(&format!("deep:n={}:{}", if (n as usize) < p { "below-limit" } else if n as usize == p { "limit" } else { "above-limit" }, ["none", "some", "panic"][code as usize]));
+                if code == 1 && lp == n as usize && lp > 0 { sum.bump(&format!("deep:reference-uses-all-the-steps:{}", if lp >= 253 { "253..255" } else if lp >= 64 { "64..252" } else if lp > 4 { "5..63" } else { "1..4" })); }
+            }
+            else { sum.bump(&format!("n={}:{}", if n == extra_n && n > 4 && n != 255 { "5..254".to_string() } else { n.to_string() }, ["none", "some", "panic"][code as usize])); }
             if code == 1 {
                 sum.bump(if out.starts_with("../") { "ref:../" } else if out.starts_with("./") { "ref:./" } else if out.starts_with('/') { "ref:/abs" } else if out.starts_with('?') { "ref:?query" } else if out.is_empty() || out.starts_with('#') { "ref:#frag-or-empty" } else { "ref:path" });
                 if lead_parents(&out) > 4 { sum.bump("ref:more-than-4-parents"); }
             }
             descs.push(v.desc(n));
-            body.push(format!("{} && shares_root_ok b i {code}", v.coq(&cb, &ci, n)));
+            body.push(format!("{} && shares_root_ok b i {code} && reach_ok b i {n} {code}", v.coq(&cb, &ci, &i, n)));
             sum.evaluations += 1;
+            // ---- a value with a history, against the property oracle and against the model (state of a history) ----
+            if n == extra_n && deep_limit.is_none() {
+                let pb = PREV_BASES[idx % PREV_BASES.len()];
+                let pn = [0u8, 255, 2, n][(idx / PREV_BASES.len()) % 4];
+                let long = idx % 2 == 1;
+                let got_h: Result<Option<String>, ()> = catch_unwind(AssertUnwindSafe(|| {
+                    let fresh = Relativizer::new(base.clone(), n);
+                    let mut h = Relativizer::new(BaseIri::new(pb.to_string()).unwrap(), pn);
+                    h.clone_from(&fresh);
+                    if long { let mut g = fresh.clone(); g.clone_from(&Relativizer::new(BaseIri::new(pb.to_string()).unwrap(), pn)); g.clone_from(&h.clone()); h = g; }
+                    h.relativize(Iri::new_unchecked(i.as_str())).map(|y| y.as_str().to_string())
+                })).map_err(|_| ());
+                // the same answer as the fresh one has been judged above; another answer is judged on its own
+                let (hcode, hout) = if got_h == got[0] { (code, out.clone()) } else { let w = judge(&mut sum, format!("{idx}/n={n}/history"), &base, &b, &i, n, &got_h); (w.code, w.out) };
+                if got_h != got[0] { sum.oracle_failures.push((format!("{idx}/n={n}/history"), format!("base <{b}> iri <{i}> parents {n}: a Relativizer<String> built for <{pb}> (parents {pn}) and re-targeted with clone_from{} gives {got_h:?} where a fresh one gives {:?}", if long { " (there and back, through clones)" } else { "" }, got[0]))); }
+                let hn = format!("(HNew b {n})");
+                let hp = format!("(HNew {} {pn})", coq_bytes(pb.as_bytes()));
+                let h1 = format!("(HCloneFrom {hp} {hn})");
+                let hist = if long { format!("(HCloneFrom (HCloneFrom (HClone {hn}) {hp}) (HClone {h1}))") } else { h1 };
+                body.push(format!("history_ok {hist} i {hcode} {}", coq_bytes(hout.as_bytes())));
+                sum.bump(&format!("history:{}:{}", if long { "clone,clone_from,clone_from(clone)" } else { "clone_from" }, ["none", "some", "panic"][hcode as usize]));
+                sum.evaluations += 1;
+            }
             // the base itself / the base with another fragment: always relativised (to "" / "#..." ), at every limit;
             // compared with the model at the limits 0 and 255
             for (k, other) in [(1usize, &b), (2usize, &b_frag)] {
                 let w = judge(&mut sum, format!("{idx}/n={n}/{}", ["", "self", "fragment"][k]), &base, &b, other, n, &got[k]);
                 sum.bump(&format!("{}:{}", ["", "self", "other-fragment"][k], ["none(!)", "some", "panic"][w.code as usize]));
-                if n == 0 || n == 255 { body.push(w.coq(&cb, &coq_bytes(other.as_bytes()), n)); sum.evaluations += 1; }
+                if n == 0 || n == 255 { body.push(w.coq(&cb, ["", "b", "bf"][k], other, n)); sum.evaluations += 1; }
             }
         }
         // ---- (base, reference) pairs: the resolver models against BaseIri::resolve ----
@@ -595,8 +783,9 @@ non-trivial = IRI and base share scheme and authority text (so the path/query br
         if same_path { sum.bump("same-path"); }
         if !b.is_ascii() || !i.is_ascii() { sum.bump("non-ascii"); }
         if seen.insert(format!("base=<{b}> iri=<{i}>")) && shares_auth { sum.distinct_nontrivial += 1; }
-        if sum.samples.len() < 6 && idx >= FIXED.len() + n_directed && shares_auth { sum.samples.push(format!("case {idx}: {text} => {}", descs.join(" "))); }
-        cases.push((idx, format!("let b := {} in let i := {} in\n  {}", coq_bytes(b.as_bytes()), coq_bytes(i.as_bytes()), body.join("\n  && "))));
+        if sum.samples.len() < 6 && idx >= deep_from + n_deep && shares_auth { sum.samples.push(format!("case {idx}: {text} => {}", descs.join(" "))); }
+        if deep_limit.is_some() { sum.bump(if shares_auth { "deep:cases" } else { "deep:cases-not-sharing-root(!)" }); }
+        cases.push((idx, format!("let b := {} in let i := {} in let bf := {} in\n  {}", coq_bytes(b.as_bytes()), coq_bytes(i.as_bytes()), coq_bytes(b_frag.as_bytes()), body.join("\n  && "))));
     }
     std::panic::set_hook(prev_hook);
     if a.only.is_none() {
